@@ -152,6 +152,50 @@ def sReadCellName (s : SFrame) (name : String) (ri : Int) : Except Err Val :=
       | some v => .ok v
       | none => .error .valueError
 
+def sColOf : List SRow → Nat → Except Err (List SVal)
+  | [], _ => .ok []
+  | r :: rs, c =>
+    match r[c]?, sColOf rs c with
+    | some v, .ok vs => .ok (v :: vs)
+    | _, .error e => .error e
+    | none, _ => .error .indexError
+
+/-- `np.array(list(map(ensure_str, data.ravel())))` for a field of the string type; other fields as they are -/
+def convStringField (t : ColType) : List SVal → Except Err (List Val)
+  | [] => .ok []
+  | v :: vs =>
+    match convStringCell t v, convStringField t vs with
+    | .ok w, .ok ws => .ok (w :: ws)
+    | .error e, _ => .error e
+    | _, .error e => .error e
+
+/-- `frame[name]`: h5py selects the one field of every row (text: an array of `bytes`); `read_data` takes the
+    branch `data.dtype == util.vlen_str_dtype` for a text field and converts every element -/
+def sGetField (s : SFrame) (name : String) : Except Err (List Val) :=
+  match findCol s.cols name with
+  | none => .error .indexError
+  | some c => match s.cols[c]? with
+    | none => .error .indexError
+    | some ct => match sColOf s.rows c with
+      | .error e => .error e
+      | .ok raw => convStringField ct.2 raw
+
+/-- `frame[lo:hi]`: the raw rows of the slice, converted row by row -/
+def sGetSlice (s : SFrame) (lo hi : Option Int) : Except Err (List Row) :=
+  convStringRows s.types (sliceList s.rows lo hi)
+
+/-- `read_columns(..., group_by_cols=True)`: `self._read_data(slc=slc)[col_name]` for every requested column -/
+def sReadColumnsGrouped (s : SFrame) (sel : Except Err (List Nat)) (lo hi : Option Int) :
+    Except Err (List (List Val)) :=
+  match sel with
+  | .error e => .error e
+  | .ok [k] => match convStringRows s.types (sliceList s.rows lo hi) with
+    | .error e => .error e
+    | .ok rows => pickAll rows [k]
+  | .ok ks => match convStringRows s.types (sliceList s.rows lo hi) with
+    | .error e => .error e
+    | .ok rows => colsOf rows ks
+
 -- ---------------------------------------------------------------------------------------
 -- writes
 
